@@ -211,11 +211,14 @@ func merges(lens []int) [][]int {
 func genIlStmt(r *rand.Rand, tok string, rmw bool, fresh *int32) ilStmt {
 	id := int32(1 + r.Intn(3)) // hot rows 1..3
 	if rmw {
-		switch r.Intn(5) {
-		case 0, 1:
+		switch r.Intn(11) {
+		case 0, 1, 2, 3:
 			return ilStmt{Kind: "rmw-read", ID: id, Scan: r.Intn(2) == 0}
-		case 2, 3:
+		case 4, 5, 6, 7:
 			return ilStmt{Kind: "rmw-append", ID: id, Tok: tok}
+		case 8:
+			// a delete that is rolled back (a quarter of the programs end by abort) must be invisible to every committed transaction
+			return ilStmt{Kind: "delete", ID: id}
 		default:
 			return ilStmt{Kind: "rmw-blind", ID: id, Tok: tok + "--------"[:8-min(8, len(tok))]}
 		}
